@@ -11,7 +11,7 @@ from ..alpha import CONFIGS_QUICK, CONFIGS_THOROUGH, only_elements
 from ..ref.layout import concat, contains_ws_tag, vis
 from ..ref.tokens import TokenError, tokenize
 from ..space import Const, Seq, trees
-from ..spec import B, I, Vb, Vi, T, H, R, M, build
+from ..spec import deref, B, I, Vb, Vi, T, H, R, M, build
 
 ID = "C05"
 LEVEL = "model_checking"
@@ -170,8 +170,9 @@ def make_fn_ws(configs):
     occurrence instead of exactly-once)."""
     def fn(case):
         viols = []
+        obj_spec, case = case, deref(case)
         for (indent, eol) in configs:
-            out = build(case).get_html_string(indent, eol)
+            out = build(obj_spec).get_html_string(indent, eol)
             maxi = []
             maximal_ws_free(case, True, maxi)
             for s_ in maxi:
@@ -249,6 +250,15 @@ def plan(tier):
                     execs=len(configs), note="leaves that hold or end with whitespace / newlines; clauses (i), (ii)"))
     out.append(dict(kind="space", name="inline-catalogue", space=Const(inline_catalogue()), fn=make_fn_ws(configs),
                     execs=len(configs), note="every tags.*/svg.* element that defaults to inline, in 3 sibling contexts"))
+    from .c06 import same_object_cases
+    so = same_object_cases(3 if tier == "quick" else 4)
+    out.append(dict(kind="space", name="same-tag-object-twice-among-siblings", space=Const(so), fn=make_fn_ws(configs),
+                    note=f"{len(so)} child lists in which one Tag object occurs twice (at a line start and inside an inline "
+                         "run): every occurrence of a whitespace-free subtree is its exact concatenation"))
+    wsl = [T(" "), T("\t"), T("\u3000"), T("a"), H(" ")]
+    tw = trees(Const(wsl), [B, I], 1, 3)
+    out.append(dict(kind="space", name="whitespace-only-text-children", space=only_elements(tw), fn=make_fn_ws(configs),
+                    note="whitespace-only text children are part of their run like any other text"))
     ts = trees(Const([T("t"), M, STYLE_LEAF]), KINDS, 1, 3)
     out.append(dict(kind="space", name="inline-raw-text-leaf", space=only_elements(ts), fn=fn_tag,
                     execs=len(configs), note="depth<=1 fan-out<=3 with a ws-off <style> holding two text children"))
